@@ -298,7 +298,21 @@ def unrelated_fit(E, rng):
         m.fit(data, "mcmc_saem", n_iter=4, seed=rng.randrange(100), progress_bar=False)
 
 
-HISTORIES = ["repeat", "python", "numpy", "torch", "all", "reseed", "unrelated-fit"]
+def unrelated_calls(E, rng, model_path, data):
+    """Other public calls with NON-default settings on another object of the same interpreter: customised optimiser options,
+    annealed sampling personalisation, an estimate. None of it may influence a later seeded run with default settings."""
+    with core.quiet():
+        m = E.BaseModel.load(model_path)
+        m.personalize(data, "scipy_minimize", seed=rng.randrange(100), progress_bar=False, use_jacobian=False,
+                      custom_scipy_minimize_params={"method": "Powell", "options": {"xtol": 1e-2, "ftol": 1e-2, "maxiter": 3}})
+        m.personalize(data, "scipy_minimize", seed=rng.randrange(100), progress_bar=False, use_jacobian=True,
+                      custom_scipy_minimize_params={"method": "BFGS", "options": {"gtol": 1e-1, "maxiter": 2}})
+        ips = m.personalize(data, "mode_posterior", seed=rng.randrange(100), progress_bar=False, n_iter=6,
+                            annealing=dict(do_annealing=True, n_plateau=2, initial_temperature=4.0))
+        m.estimate({i: [70.0, 75.5] for i in list(ips._indices)[:2]}, ips)
+
+
+HISTORIES = ["repeat", "python", "numpy", "torch", "all", "reseed", "unrelated-fit", "unrelated-calls"]
 
 
 def part_b(chk, E, tmp):
@@ -353,19 +367,29 @@ def part_b(chk, E, tmp):
     subjects.append((f"personalize mode_posterior seed={seed}", perso_thunk("mode_posterior", seed, n_iter=15)))
     subjects.append((f"personalize scipy_minimize seed={seed}", perso_thunk("scipy_minimize", seed)))
     subjects.append((f"simulate seed={seed}", sim_thunk(seed)))
+    # reference results first, all of them, before any other activity took place in this interpreter
+    # (an activity that leaves something behind would otherwise already be part of a later subject's reference)
+    refs = {}
     for name, thunk in subjects:
         try:
-            ref = thunk()
+            refs[name] = thunk()
         except Exception as e:
             chk.impl_failure({"part": "history", "subject": name, "history": "first run"},
                              f"{name}: raised {type(e).__name__}: {str(e)[:100]}")
+    for name, thunk in subjects:
+        if name not in refs:
             continue
+        ref = refs[name]
         hists = HISTORIES if chk.tier == "thorough" or name.startswith(("fit logistic", "simulate")) else rng.sample(HISTORIES, 4)
+        if name.startswith("personalize") and "unrelated-calls" not in hists:
+            hists = list(hists) + ["unrelated-calls"]
         for h in hists:
             cj = {"part": "history", "subject": name, "history": h}
             try:
                 if h == "unrelated-fit":
                     unrelated_fit(E, rng)
+                elif h == "unrelated-calls":
+                    unrelated_calls(E, rng, p, multi)
                 elif h != "repeat":
                     consume(E, h, rng)
                 got = thunk()
